@@ -4,6 +4,8 @@
 // NewOneToManyNode / NewManyToOneNode, with actions that block on harness channels and
 // harness-owned sink readers at the leaves. A schedule is a list of steps
 //
+//	ports <n> <i|a>...    (topology) the order in which node n's indexed ports are FIRST asked for
+//	                      (`a` = the bare alias out / in for index 0); the generators draw it at random
 //	send <val>            the source writer (a real packet.Writer opened on an out-port linked to
 //	                      the first node's in-port) writes a request
 //	rel <n> <outcome>     the action currently running in node n returns <outcome>
@@ -195,6 +197,36 @@ type tgt struct {
 type gnode struct {
 	kind byte // 'o' one-to-one, 'm' one-to-many, 'j' many-to-one
 	ar   int
+	// ord: the order in which the indexed ports (out[i] of 'm', in[i] of 'j') are FIRST asked for
+	// (`ports` line); -1 stands for the bare alias "out"/"in" (= index 0). Ports not listed are asked
+	// for afterwards in ascending order. The symbol linker iterates a map, so any order is valid usage.
+	ord []int
+}
+
+// portName: the name under which port i of a node is asked for; the bare alias for index 0 when the
+// node's `ports` line used it.
+func (n gnode) portName(base string, i int) string {
+	if i == 0 {
+		for _, o := range n.ord {
+			if o == -1 {
+				return base
+			}
+		}
+	}
+	return node.PortWithIndex(base, i)
+}
+
+func (n gnode) firstAsk(base string, ask func(name string)) {
+	for _, o := range n.ord {
+		if o == -1 {
+			ask(base)
+		} else {
+			ask(node.PortWithIndex(base, o))
+		}
+	}
+	for j := 0; j < n.ar; j++ {
+		ask(n.portName(base, j))
+	}
 }
 
 type wlink struct {
@@ -622,9 +654,7 @@ func buildRig(g *gspec) *rig {
 				}
 				return nil, nil
 			})
-			for j := 0; j < spec.ar; j++ {
-				n.Out(node.PortWithIndex(node.PortOut, j))
-			}
+			spec.firstAsk(node.PortOut, func(name string) { n.Out(name) })
 			rg.nodes = append(rg.nodes, n)
 		default:
 			n := node.NewManyToOneNode(func(_ *process.Process, ins []*packet.Packet) (*packet.Packet, *packet.Packet) {
@@ -645,15 +675,13 @@ func buildRig(g *gspec) *rig {
 				}
 				return nil, nil
 			})
-			for j := 0; j < spec.ar; j++ {
-				n.In(node.PortWithIndex(node.PortIn, j))
-			}
+			spec.firstAsk(node.PortIn, func(name string) { n.In(name) })
 			rg.nodes = append(rg.nodes, n)
 		}
 	}
 	inPort := func(n, p int) *port.InPort {
 		if g.nodes[n].kind == 'j' {
-			return rg.nodes[n].In(node.PortWithIndex(node.PortIn, p))
+			return rg.nodes[n].In(g.nodes[n].portName(node.PortIn, p))
 		}
 		return rg.nodes[n].In(node.PortIn)
 	}
@@ -662,7 +690,7 @@ func buildRig(g *gspec) *rig {
 			return rg.nodes[n].Out(node.PortError)
 		}
 		if g.nodes[n].kind == 'm' {
-			return rg.nodes[n].Out(node.PortWithIndex(node.PortOut, w-1))
+			return rg.nodes[n].Out(g.nodes[n].portName(node.PortOut, w-1))
 		}
 		return rg.nodes[n].Out(node.PortOut)
 	}
@@ -861,6 +889,28 @@ func (cr *caseRun) topo(f []string) (bool, bool) {
 			return true, false
 		}
 		g.nodes = append(g.nodes, gnode{kind: f[1][0], ar: k})
+	case len(f) >= 3 && f[0] == "ports":
+		// ports <n> <i|a>...: the order in which node n's indexed ports are first asked for
+		n, ok := atoi(f[1])
+		if !ok || n >= len(g.nodes) || g.nodes[n].kind == 'o' || g.nodes[n].ord != nil {
+			return true, false
+		}
+		var ord []int
+		for _, t := range f[2:] {
+			if t == "a" {
+				if g.nodes[n].ar == 0 {
+					return true, false
+				}
+				ord = append(ord, -1)
+				continue
+			}
+			i, ok := atoi(t)
+			if !ok || i >= g.nodes[n].ar {
+				return true, false
+			}
+			ord = append(ord, i)
+		}
+		g.nodes[n].ord = ord
 	case len(f) == 6 && f[0] == "link" && f[3] == "n":
 		n, ok1 := atoi(f[1])
 		w, ok2 := atoi(f[2])
@@ -1174,7 +1224,59 @@ func genForkGraph(r *lib.RNG, c *lib.Ctx) []string {
 	return lines
 }
 
+// withPortOrders inserts, after about half of the `node m k` / `node j k` lines, a `ports` line with
+// a random order of first request (a permutation of the indices, index 0 sometimes by the bare alias).
+func withPortOrders(r *lib.RNG, c *lib.Ctx, lines []string) []string {
+	var out []string
+	idx := 0
+	for _, l := range lines {
+		out = append(out, l)
+		f := strings.Fields(l)
+		if len(f) == 0 || f[0] != "node" {
+			continue
+		}
+		n := idx
+		idx++
+		if len(f) != 3 {
+			continue
+		}
+		ar, ok := atoi(f[2])
+		if !ok || ar == 0 || !r.Chance(1, 2) {
+			continue
+		}
+		perm := make([]int, ar)
+		for i := range perm {
+			perm[i] = i
+		}
+		for i := ar - 1; i > 0; i-- {
+			j := r.Intn(i + 1)
+			perm[i], perm[j] = perm[j], perm[i]
+		}
+		toks := make([]string, ar)
+		asc := true
+		for i, x := range perm {
+			toks[i] = strconv.Itoa(x)
+			if x == 0 && r.Chance(1, 3) {
+				toks[i] = "a"
+				c.Hit("ports-bare-alias")
+			}
+			if x != i {
+				asc = false
+			}
+		}
+		if !asc {
+			c.Hit("ports-asked-non-ascending-" + f[1])
+		}
+		out = append(out, fmt.Sprintf("ports %d %s", n, strings.Join(toks, " ")))
+	}
+	return out
+}
+
 func genGraph(r *lib.RNG, c *lib.Ctx, maxNodes int) []string {
+	return withPortOrders(r, c, genGraphPlain(r, c, maxNodes))
+}
+
+func genGraphPlain(r *lib.RNG, c *lib.Ctx, maxNodes int) []string {
 	var lines []string
 	if r.Chance(1, 7) {
 		return genForkGraph(r, c)
@@ -1187,10 +1289,10 @@ func genGraph(r *lib.RNG, c *lib.Ctx, maxNodes int) []string {
 	for i := range nodes {
 		switch x := r.Intn(100); {
 		case i == 0 && x < 50, i > 0 && x < 45:
-			nodes[i] = gnode{'o', 1}
+			nodes[i] = gnode{kind: 'o', ar: 1}
 			lines = append(lines, "node o")
 		case i == 0 && x < 88, i > 0 && x < 72:
-			nodes[i] = gnode{'m', r.Range(1, 3)}
+			nodes[i] = gnode{kind: 'm', ar: r.Range(1, 3)}
 			lines = append(lines, fmt.Sprintf("node m %d", nodes[i].ar))
 		default:
 			ar := 2
@@ -1199,7 +1301,7 @@ func genGraph(r *lib.RNG, c *lib.Ctx, maxNodes int) []string {
 			} else if r.Chance(1, 6) {
 				ar = 3
 			}
-			nodes[i] = gnode{'j', ar}
+			nodes[i] = gnode{kind: 'j', ar: ar}
 			lines = append(lines, fmt.Sprintf("node j %d", ar))
 		}
 		c.Hit("node-" + string(nodes[i].kind))
